@@ -41,6 +41,8 @@ func init() {
 			{ID: "C16-R17", Title: "slice bounds are tested against the same limit", Floor: 1, Run: sliceBoundsShareTheLimit},
 			{ID: "C16-R18", Title: "byte_slice() and buffer() copy the bytes of the value they convert", Floor: 2, Run: conversionsCopyByteStorage},
 			{ID: "C16-R19", Title: "snapshot iterators skip removed keys", Floor: 2, Run: snapshotIteratorsSkipRemovedKeys},
+			{ID: "C16-R20", Title: "lists do not share storage", Floor: 1, Run: listsDoNotShareStorage},
+			{ID: "C16-R21", Title: "presence is not decided by nil", Floor: 1, Run: presenceIsNotDecidedByNil},
 		},
 	})
 }
